@@ -26,6 +26,38 @@ package cache
 //@ field map_map_cache.CacheKey guarded_by mu
 //@ field cacheJanitor.interval guarded_by confined:newCacheJanitor,cacheJanitor.start,cacheJanitor.start$1
 
+// ---------------------------------------------------------------- cache keys (C02)
+
+// The identity of a stored entry.  Vocabulary (identities of string contents):
+// tolower / pathclean / concatid / hassuffix are the library functions on
+// identities, fmtid(format, ...) the identity of fmt.Sprintf's result, hashid /
+// hexid BLAKE2b-256 and hex encoding.  The normalised path is path.Clean of the
+// path with the trailing slash put back (Clean drops it, but /dir/ and /dir are
+// different resources).
+//@ spec func specDirPath(p int) bool = hassuffix(p, "/") || hassuffix(p, "/.") || hassuffix(p, "/..")
+//@ spec func specNormPath(p int) int = (specDirPath(p) && pathclean(p) != sid("/")) ? concatid(pathclean(p), sid("/")) : pathclean(p)
+//@ spec func specPreKey(scheme int, method int, host int, path int, query int) int = fmtid("%q|%q|%q|%q|%q", scheme, method, tolower(host), specNormPath(path), query)
+//@ spec func specKeyHex(scheme int, method int, host int, path int, query int) int = hexid(hashid(specPreKey(scheme, method, host, path, query)))
+
+// Two requests get the same key exactly when they agree in scheme, method, lower-cased
+// host, normalised path and raw query.
+//@ props C02 C16
+//@ func MakeFromRequest
+//@   nopanic
+//@   pure
+//@   requires r != nil && r.URL != nil
+//@   ensures [C02] sid(result.Hex) == specKeyHex(r.TLS != nil ? sid("https") : sid("http"), sid(r.Method), sid(r.Host), sid(r.URL.Path), sid(r.URL.RawQuery))
+
+// L1: equal keys only for equal components (BLAKE2b collision resistance assumed).
+//@ props C02
+//@ lemma keyInjective: forall s1 int, m1 int, h1 int, p1 int, q1 int, s2 int, m2 int, h2 int, p2 int, q2 int :: specKeyHex(s1, m1, h1, p1, q1) == specKeyHex(s2, m2, h2, p2, q2) ==> s1 == s2 && m1 == m2 && tolower(h1) == tolower(h2) && specNormPath(p1) == specNormPath(p2) && q1 == q2
+// L2: host letter case and anything path.Clean removes do not matter.
+//@ props C02
+//@ lemma keyIdentifies: forall s int, m int, h1 int, h2 int, p1 int, p2 int, q int :: tolower(h1) == tolower(h2) && specNormPath(p1) == specNormPath(p2) ==> specKeyHex(s, m, h1, p1, q) == specKeyHex(s, m, h2, p2, q)
+// L3: a trailing slash matters (unless the path is the root).
+//@ props C02
+//@ lemma keyTrailingSlash: forall p1 int, p2 int :: specDirPath(p1) && pathclean(p1) != sid("/") && !specDirPath(p2) && pathclean(p2) != sid("/") ==> specNormPath(p1) != specNormPath(p2)
+
 // ---------------------------------------------------------------- helpers
 
 //@ props C14 C16
